@@ -568,11 +568,12 @@ def main():
     extract_phases.main()
     text = emit()
     os.makedirs(os.path.dirname(OUT), exist_ok=True)
-    if os.path.exists(OUT) and open(OUT, encoding="utf-8").read() == text:
-        return 0
-    with open(OUT, "w", encoding="utf-8") as fh:
-        fh.write(text)
-    return 0
+    if not (os.path.exists(OUT) and open(OUT, encoding="utf-8").read() == text):
+        with open(OUT, "w", encoding="utf-8") as fh:
+            fh.write(text)
+    # function bodies: Generated/Funcs.lean + Driver/GenFuncs.lean (tools/py2lean.py, same source tree, same run)
+    import py2lean
+    return py2lean.main()
 
 
 if __name__ == "__main__":
